@@ -116,6 +116,17 @@ def run(ctx):
     run_traces(ctx, "c11_fast", [[ctx.seed * 10 + i, 4000 if ctx.thorough else 1200] for i in range(3 if ctx.thorough else 2)], None, None, "L-api overrun counts", "fast", timeout=300)
     # interval sources: their configuration is computed by a function of its own (first fire = next multiple of the interval)
     run_traces(ctx, "c11_interval", [[ctx.seed * 10 + i, 6 if ctx.thorough else 2] for i in range(3 if ctx.thorough else 2)], None, None, "L-api interval sources", "interval", timeout=300)
+    # TimerCfg.intervalStart transcribes two statements of _dispatch_interval_config_create; they are looked up in the source on every run
+    import re as _re
+    from common import REPO as _REPO
+    _src = open(os.path.join(_REPO, "src/source.c")).read()
+    _m = _re.search(r"\n_dispatch_interval_config_create\(.*?\n}\n", _src, _re.S)
+    _body = _re.sub(r"\s+", " ", _re.sub(r"//[^\n]*", "", _m.group(0))) if _m else ""
+    _a, _b = _body.find("start = _dispatch_uptime() + interval;"), _body.find("start -= (start % interval);")
+    if not (0 <= _a < _b and "start" not in _body[_a + 38:_b]):
+        ctx.broken("transcription of _dispatch_interval_config_create (TimerCfg.intervalStart: `start = _dispatch_uptime() + interval; start -= (start % interval);`)",
+                   "the two statements are no longer there in that form; the oracle above searches for a failing input")
+    ctx.count("source shape interval config", 1, 1)
     ctx.cov["rule"] = ("heap: seeded random insert/remove/update histories on the real heap (live populations of 2 to 3000 timers, segment grow/shrink), every slot compared after "
                        "every operation with the proved functions; compute_missed: generated (target, interval, now, prev) incl. clamp and one-shot cases; oracle: populations of "
                        "dispatch_after blocks and timer sources on the three clocks with cancel / set_timer / suspend churn. distinct_nontrivial counts operations / inputs / timers")
